@@ -22,8 +22,6 @@ func (am AppModule) BeginBlocker(ctx context.Context) error {
 	}
 	defer iterator.Close()
 
-	sk := am.keeper.GetStakingKeeper()
-
 	for ; iterator.Valid(); iterator.Next() {
 		valOperAddr, err := iterator.Key()
 		if err != nil {
@@ -31,21 +29,8 @@ func (am AppModule) BeginBlocker(ctx context.Context) error {
 		}
 		am.keeper.Logger().Info("UpdatedValidatorsCache: %s\n", valOperAddr)
 
-		valAddr, err := sk.ValidatorAddressCodec().StringToBytes(valOperAddr)
-		if err != nil {
-			return err
-		}
-
-		val, err := sk.GetValidator(ctx, valAddr)
-		if err != nil {
-			return err
-		}
-
-		// Remove it from persisting across many blocks
-		if err := sk.DeleteValidatorByPowerIndex(ctx, val); err != nil {
-			return err
-		}
-
+		// The cache is no longer filled: SetPOAPower keeps exactly one power index entry per validator, which must stay.
+		// Entries written before that change are only dropped here.
 		if err := am.keeper.UpdatedValidatorsCache.Remove(ctx, valOperAddr); err != nil {
 			return err
 		}
